@@ -58,16 +58,26 @@ theorem withTerm_no_nul (bs : Bytes) (h : 0 ∉ bs) : 0 ∉ withTerm bs := by
   · exact h
   · simp [h]
 
+/-- the byte lists written by `renderItem` are the texts of the source -/
+theorem fieldMatchSep_text : fieldMatchSep = textBytes sepFieldMatchText := by decide
+theorem fieldContextSep_text : fieldContextSep = textBytes sepFieldContextText := by decide
+theorem contextSepLine_text : contextSepLine = textBytes sepContextText ++ [10] := by decide
+theorem warnStopped_text :
+    warnStopped = textBytes (": " ++ warnStoppedHead ++ warnFoundText ++ "\"\\0\"" ++ warnAroundText) := by decide
+theorem warnMatches_text :
+    warnMatches = textBytes (": " ++ warnMatchesHead ++ warnFoundText ++ "\"\\0\"" ++ warnAroundText) := by decide
+theorem binaryByte_nul : binaryByte = 0 := rfl
+
 theorem renderItem_no_nul (path : Bytes) (hp : 0 ∉ path) (it : Item) (h : 0 ∉ it.fileBytes) :
     0 ∉ renderItem path it := by
   cases it with
   | matchLine ln bs =>
     simp only [renderItem, List.mem_append, not_or]
-    exact ⟨⟨⟨⟨hp, by simp⟩, natBytes_no_nul ln⟩, by simp⟩, withTerm_no_nul bs h⟩
+    exact ⟨⟨⟨⟨hp, by decide⟩, natBytes_no_nul ln⟩, by decide⟩, withTerm_no_nul bs h⟩
   | contextLine ln bs =>
     simp only [renderItem, List.mem_append, not_or]
-    exact ⟨⟨⟨⟨hp, by simp⟩, natBytes_no_nul ln⟩, by simp⟩, withTerm_no_nul bs h⟩
-  | sep => simp [renderItem]
+    exact ⟨⟨⟨⟨hp, by decide⟩, natBytes_no_nul ln⟩, by decide⟩, withTerm_no_nul bs h⟩
+  | sep => simp only [renderItem]; decide
   | stoppedWarning off =>
     simp only [renderItem, List.mem_append, not_or]
     exact ⟨⟨⟨hp, warnStopped_no_nul⟩, natBytes_no_nul off⟩, warnEnd_no_nul⟩
